@@ -423,6 +423,31 @@ func (tc *taintCfg) callTaint(res *taintResult, call *ssa.Call, isT func(ssa.Ins
 		}
 		return changed
 	}
+	// a function value that resolves to functions of the repository (a literal held in a local, an entry of a
+	// package-level table of handlers filled by the initialiser): the union of their summaries
+	if !cc.IsInvoke() && staticCallee(call) == nil {
+		if fs := tc.c.CalleesOf(call); len(fs) > 0 {
+			all := true
+			for _, f := range fs {
+				if len(f.Blocks) == 0 || !inRepo(fnPkgPath(origin(f))) {
+					all = false
+				}
+			}
+			if all {
+				for _, f := range fs {
+					for _, i := range taintedArgs {
+						mask := tc.summary(f, i)
+						for r := 0; r < 16; r++ {
+							if mask&(1<<uint(r)) != 0 {
+								markResult(r, args[i])
+							}
+						}
+					}
+				}
+				return changed
+			}
+		}
+	}
 	// unknown / library call: every text-carrying result is tainted
 	markResult(-1, args[taintedArgs[0]])
 	return changed
